@@ -40,6 +40,19 @@ Order   : the map is pointwise.  (i) after every successful call, for every coor
           edge of the source triangulation; tps-control: a control point (kernel singularity r = 0).  The same
           points sit in two landmark groups in reversed and rotated order.
 
+Scale   : every tolerance is relative to the magnitude of the data at hand (max |input|, |output| of the array,
+          times the conditioning of the map there); no absolute epsilon anywhere.
+          "scale" roots: 3 shape classes x dims with the payload re-expressed at another legal magnitude -
+          coordinates x 1e-6, x 1e-9, x 1e6, and + a common offset of ~1e6 (offset / spread ~ 1e6) - crossed with
+          every transform letter re-expressed likewise (conjugated by the scaling / translation, rebuilt through
+          the public constructors from the scaled parameters; alignments are re-fitted to scaled source / target).
+          Besides the normal oracle (model computed from the scaled transform's own parameters) the
+          scale-equivariance clause: T_s(s x) == s T(x), T_c(x + c) == T(x) + c, relative 1e-9.
+          "near" roots: two landmark groups whose points differ from the shape's by 1e-6 / 1e-7 relative;
+          letters Affine-near-identity / Homogeneous-near-identity (identity + 1e-7 generic); sessions get two
+          landmark-free arguments C and Cn = C (1 + 1e-9) (results compared exactly with a never-used twin).
+          "large" roots: 200 points (PointCloud, TriMesh) with a 200-point landmark group; batch_size none / 64.
+
 Second machine (roots ("session", transform letter, dims, argument set)) - refused calls on ONE live transform:
 State   : one live transform t and live argument shapes A, B (valid), W (other dimensionality), and for the
           piecewise-affine letters O (a point outside the domain), LO (a landmark outside); the model state
@@ -67,6 +80,32 @@ REF_TOL = 1e-9  # relative to (1 + max |expected|) * conditioning of the map at 
 PWA_EPS = 1e-9  # barycentric slack below which a point is 'on the border' (either outcome accepted)
 OUTSIDE = np.array([7.1, 6.3])  # well outside every pwa_layout square (corners <= 5.7)
 VARIANTS = ("plain", "touched", "nested", "out", "lm-out", "order", "special")
+SCALES = collections.OrderedDict([("x1e-6", ("mul", 1e-6)), ("x1e-9", ("mul", 1e-9)), ("x1e6", ("mul", 1e6)), ("offset1e6", ("add", (1.0e6, -2.0e6, 0.5e6)))])
+SCALE_CLASSES = ("PointCloud", "TexturedTriMesh", "LabelledPointUndirectedGraph")
+LARGE_N = 200
+LARGE_BATCH = 64  # does not divide LARGE_N
+# letters left out at a scale, with the reason (see assumptions())
+SCALE_EXCLUDED = {}
+for _n in ("ThinPlateSplines", "TPS-R2LogRRBF", "Chain-TPS"):
+    for _s in ("x1e-6", "x1e-9", "x1e6"):
+        SCALE_EXCLUDED[(_n, _s)] = "documented absolute threshold min_singular_val=1e-4: singular values of the spline system scale with the coordinates (x s^2 and x 1/s^2) and are truncated, the spline no longer interpolates"
+    SCALE_EXCLUDED[(_n, "offset1e6")] = "control points with offset / spread ~1e6 make the spline system ill-conditioned (affine block columns of 1e6 next to kernel entries of 1e1; observed error 1e-9 relative): not a well-conditioned configuration"
+for _n in ("AlignmentRotation", "AlignmentUniformScale"):
+    SCALE_EXCLUDED[(_n, "offset1e6")] = "a rotation / scaling about the origin fitted to translated point sets is another map: the class is not translation-equivariant by definition"
+SCALE_EXCLUDED[("AlignmentAffine", "offset1e6")] = "re-fitting to source / target with offset / spread ~1e6 is ill-conditioned (normal equations, cond ~1e24): not a well-conditioned configuration (reported)"
+
+
+def mag(*arrays):
+    """magnitude of the data at hand: tolerances are relative to it (never an absolute epsilon)."""
+    return max([float(np.abs(np.asarray(a, dtype=float)).max()) for a in arrays if np.size(a)] + [0.0])
+
+
+def rescale_points(skey, p):
+    kind, val = SCALES[skey]
+    p = np.asarray(p, dtype=float)
+    return p * val if kind == "mul" else p + np.asarray(val)[: p.shape[1]]
+
+
 ORDER_TOL = 1e-12  # permutation equivariance under batch_size (relative to (1 + max |y|) * conditioning)
 
 
@@ -209,6 +248,20 @@ def make_shape(root, seed):
         obj.landmarks  # instantiates the empty manager: `_landmarks is not None and n_groups == 0`
     if d == 2:
         place(obj, into_domain)
+    if variant == "near":
+        from menpo.shape import PointCloud, PointUndirectedGraph
+
+        obj.landmarks["near.1e-6"] = PointCloud(obj.points * (1.0 + 1e-6))
+        obj.landmarks["near.1e-7"] = PointUndirectedGraph.init_from_edges(obj.points * (1.0 - 1e-7), L.EDGES5)
+    if variant == "large":
+        from menpo.shape import PointCloud
+
+        r = L.rs(seed, "large", cls, d)
+        lo, hi = (1.2, 4.8) if d == 2 else (0.5, 5.5)
+        obj.points = lo + (hi - lo) * r.rand(LARGE_N, d)  # TRILIST5 / EDGES5 keep addressing the first five
+        obj.landmarks["large"] = PointCloud(lo + (hi - lo) * r.rand(LARGE_N, d))
+    if variant == "scale":
+        place(obj, lambda p: rescale_points(root[4], p))
     if variant in ("int", "f32"):
         def cast(a):
             return np.round(a).astype(np.int64) if variant == "int" else a.astype(np.float32)
@@ -231,7 +284,7 @@ def make_shape(root, seed):
 # boundary letters of the homogeneous family: an AFFINE bottom row (0,...,0,w) with w != 1 (the same map as the matrix
 # divided by w; also negative w), the identity, and a matrix scaled by a tiny / huge factor
 # ... and a projective bottom row of small dyadic numbers: some points have homogeneous coordinate exactly 1, others not
-BOUNDARY = ["Homogeneous-affine-w2", "Homogeneous-affine-wneg", "Homogeneous-affine-whalf", "Homogeneous-scaled-1e-3", "Homogeneous-dyadic-row", "Identity-Affine", "Translation-zero", "UniformScale-one"]
+BOUNDARY = ["Homogeneous-affine-w2", "Homogeneous-affine-wneg", "Homogeneous-affine-whalf", "Homogeneous-scaled-1e-3", "Homogeneous-dyadic-row", "Affine-near-identity", "Homogeneous-near-identity", "Identity-Affine", "Translation-zero", "UniformScale-one"]
 DYADIC_ROW = [0.0625, -0.03125, 0.015625]
 PROJECTIVE = ("Homogeneous", "Homogeneous-scaled-1e-3", "Homogeneous-dyadic-row")
 TPS_LETTERS = ("ThinPlateSplines", "TPS-R2LogRRBF", "Chain-TPS")
@@ -309,6 +362,8 @@ def make_transform(spec, seed):
     import menpo.transform as mt
 
     name, d = spec[0], int(spec[1])
+    if len(spec) > 2 and spec[2] in SCALES:
+        return scaled_transform(make_transform(spec[:2], seed), spec[2], d)
     if name == "WithDims-slice":
         # a slice on the dimension axis gives a *view* of the input before WithDims copies it
         return mt.WithDims(slice(None, None, -1) if d == 2 else slice(0, 2))
@@ -327,6 +382,11 @@ def make_transform(spec, seed):
             full[-1, :d] = DYADIC_ROW[:d]
             full[-1, d] = 1.0
             return mt.Homogeneous(full)
+        if name == "Affine-near-identity":
+            return mt.Affine(np.eye(d + 1) + 1e-7 * (base - np.eye(d + 1)))
+        if name == "Homogeneous-near-identity":
+            full = np.array(L.transform(("Homogeneous", d, 7), seed).h_matrix, dtype=float)
+            return mt.Homogeneous(np.eye(d + 1) + 1e-7 * (full - np.eye(d + 1)))
         if name == "Identity-Affine":
             return mt.Affine(np.eye(d + 1))
         if name == "Translation-zero":
@@ -335,6 +395,58 @@ def make_transform(spec, seed):
     if name == "Chain-TPS":
         return mt.TransformChain([L.transform(("ThinPlateSplines", 2, 5), seed), L.transform(("Rotation", 2, 6), seed), mt.WithDims([1, 0])])
     return L.transform(spec, seed)
+
+
+def scaled_transform(t, skey, d):
+    """the transform conjugated by the scaling / translation of `skey`, rebuilt through public constructors."""
+    import menpo.transform as mt
+    from menpo.shape import PointCloud, TriMesh
+    from menpo.transform.base.alignment import Alignment
+    from menpo.transform.piecewiseaffine.base import AbstractPWA
+
+    kind, val = SCALES[skey]
+    if isinstance(t, mt.TransformChain):
+        return mt.TransformChain([scaled_transform(m, skey, d) for m in t.transforms])
+    if isinstance(t, mt.WithDims):
+        return mt.WithDims(t.dims)
+    if isinstance(t, AbstractPWA):
+        return type(t)(TriMesh(rescale_points(skey, t.source.points), np.array(t.trilist)), TriMesh(rescale_points(skey, t.target.points), np.array(t.trilist)))
+    if isinstance(t, mt.ThinPlateSplines):
+        src = rescale_points(skey, t.source.points)
+        kernel = type(t.kernel)(src)
+        return mt.ThinPlateSplines(PointCloud(src), PointCloud(rescale_points(skey, t.target.points)), kernel=kernel)
+    if isinstance(t, Alignment):
+        return type(t)(PointCloud(rescale_points(skey, t.source.points)), PointCloud(rescale_points(skey, t.target.points)))
+    h = np.array(t.h_matrix, dtype=float)
+    n = h.shape[0] - 1
+    if kind == "mul":
+        if type(t) in (mt.Rotation, mt.UniformScale, mt.NonUniformScale):
+            return t  # linear maps commute with a uniform scaling
+        if type(t) is mt.Translation:
+            return mt.Translation(h[:n, n] * val)
+        hs = h.copy()
+        hs[:n, n] *= val
+        hs[n, :n] /= val
+        return type(t)(hs)
+    c = np.asarray(val)[:n]
+    fwd, back = np.eye(n + 1), np.eye(n + 1)
+    fwd[:n, n], back[:n, n] = c, -c
+    hc = fwd.dot(h).dot(back)
+    if isinstance(t, mt.Similarity):
+        hc[n, :] = h[n, :]
+        return mt.Translation(hc[:n, n]) if type(t) is mt.Translation else mt.Similarity(hc)
+    if isinstance(t, mt.Affine):
+        hc[n, :] = h[n, :]
+        return mt.Affine(hc)
+    return mt.Homogeneous(hc)
+
+
+def offset_image(skey, t, d):
+    """where the common offset goes under the (unconjugated) letter: c itself, or its retained dimensions."""
+    c = np.asarray(SCALES[skey][1], dtype=float)[:d]
+    if type(t).__name__ == "WithDims":
+        return c[None, :][:, t.dims].reshape(1, -1)[0]
+    return c
 
 
 def obs_transform(t):
@@ -427,7 +539,13 @@ class C02(Check):
             for d in (2, 3):
                 out.append((cls, d, 1, "int"))
                 out.append((cls, d, 1, "f32"))
-        return out + self.order_roots() + self.special_roots() + self.session_roots()
+        return out + self.order_roots() + self.special_roots() + self.scale_roots() + self.session_roots()
+
+    def scale_roots(self):
+        out = [(cls, d, 2, "scale", sk) for sk in SCALES for cls in SCALE_CLASSES for d in (2, 3)]
+        out += [(cls, d, 0, "near") for cls in SCALE_CLASSES for d in (2, 3)]
+        out += [(cls, d, 0, "large") for cls in ("PointCloud", "TriMesh") for d in (2, 3)]
+        return out
 
     def order_roots(self):
         return [(cls, d, 0, "order", pn) for cls in L.SHAPE_CLASSES for d in (2, 3) for pn in perms(5)]
@@ -458,6 +576,9 @@ class C02(Check):
         if root[3] == "special":
             st["only"] = (root[6], int(root[1]))
             st["special"] = (root[4], root[5])
+        if root[3] == "scale":
+            st["scale"] = root[4]
+            st["base"] = dict((p, a.copy()) for p, a in point_arrays(make_shape(root[:3] + ("plain",), self.seed)))
         return st
 
     def build_session(self, root):
@@ -466,6 +587,11 @@ class C02(Check):
         args["A"] = make_shape((cls_a, d, 2, "plain"), self.seed)
         args["B"] = make_shape((cls_b, d, 1, "plain"), self.seed)
         args["W"] = make_shape((cls_a, 5 - d, 1, "plain"), self.seed)
+        # two landmark-free arguments that are nearly, not exactly, equal (relative 1e-9: 1e7 x rounding), so that
+        # consecutive calls hand the transform nearly equal arrays
+        args["C"] = make_shape((cls_a, d, 0, "plain"), self.seed)
+        args["Cn"] = make_shape((cls_a, d, 0, "plain"), self.seed)
+        place(args["Cn"], lambda p: p * (1.0 + 1e-9))
         if is_pwa_letter(name):
             args["O"] = make_shape((cls_a, 2, 2, "out"), self.seed)
             args["LO"] = make_shape((cls_b, 2, 2, "lm-out"), self.seed)
@@ -481,12 +607,16 @@ class C02(Check):
     def canon(self, st):
         if st["machine"] == "session":
             return (obs_key(obs_quiet(st["t"])), st["last"])
-        return obs_key(observe(st["shape"]))
+        key = obs_key(observe(st["shape"]))
+        if st.get("scale"):
+            # rounding to 1e-9 means nothing at other magnitudes: the exact coordinates join the key
+            key = (key, tuple(a.tobytes() for _, a in point_arrays(st["shape"])))
+        return key
 
     def ops(self, st, level):
         if st["machine"] == "session":
             name = st["spec"][0]
-            out = [("v", a, b) for b in (0, 2) for a in ("A", "B")]
+            out = [("v", a, b) for b in (0, 2) for a in ("A", "B")] + [("v", "C", 0), ("v", "Cn", 0)]
             if not name.startswith("WithDims"):  # WithDims is not dimension specific: nothing to refuse
                 out.append(("r", "wrong-dims", "W", 0))
             out.append(("r", "bad-batch", "A", 0))
@@ -500,12 +630,18 @@ class C02(Check):
         if st["only"] is not None:
             # a shape whose first / last point is special for one transform letter meets that letter only
             letters = [st["only"]] if level == 0 else []
+        elif st.get("scale"):
+            # payload at another magnitude meets every letter re-expressed at that magnitude; not transformed again
+            letters = [spec + (st["scale"],) for spec in transform_letters(d) if (spec[0], st["scale"]) not in SCALE_EXCLUDED] if level == 0 else []
+        elif st["variant"] == "large" and level > 0:
+            letters = []
         else:
             letters = transform_letters(d)
-        out = [spec + (b,) for b in (0, 2) for spec in letters]
+        plain_routes_only = bool(st.get("scale"))  # the magnitude of the payload is orthogonal to the route
+        out = [spec + (b,) for b in ((0, LARGE_BATCH) if st["variant"] == "large" else (0, 2)) for spec in letters]
         # the other public routes (all of them from the enumerated inputs; on results only the shape-side one)
         out += [spec + ("with_dims",) for spec in letters if spec[0].startswith("WithDims")]
-        if level == 0:
+        if level == 0 and not plain_routes_only:
             out += [spec + ("inplace",) for spec in letters]
             if st["shape"].has_landmarks:
                 out += [spec + ("manager",) for spec in letters]
@@ -550,6 +686,8 @@ class C02(Check):
         if kind == "valid":
             r, exc = call(t, x, **kw)
             self.note("session:valid-%s" % seq)
+            if before is not None and before[0] == "v" and sorted((aid, before[1])) == ["C", "Cn"]:
+                self.note("session:valid-near-argument")
             if exc is not None:
                 fails.append(Failure(name, "valid-call-raised-after-history", "%s: raised %r" % (ctx, exc)))
                 return fails
@@ -559,7 +697,7 @@ class C02(Check):
                 fails.append(Failure(name, "result-depends-on-call-history", "%s: differs from the result of a transform that never saw another call at %s" % (ctx, d)))
             for (p, got), (_, src) in zip(point_arrays(r), point_arrays(x)):
                 y, cond = ref_map(twin, src)
-                tol = REF_TOL * (1.0 + np.abs(y).max()) * max(1.0, cond)
+                tol = REF_TOL * mag(y, src) * max(1.0, cond)
                 if got.shape != y.shape or not np.abs(got - y).max() <= tol:
                     fails.append(Failure(name, "map-value", "%s: %s is off the model (tolerance %.3g)" % (ctx, p, tol)))
             untouched()
@@ -622,7 +760,7 @@ class C02(Check):
 
         fails = []
         cls = type(shape).__name__
-        ctx = "%s%s on %s %dD %s" % (name, "" if route == "apply" else " by route " + route, cls, shape.n_dims, st["variant"])
+        ctx = "%s%s%s on %s %dD %s" % (name, " re-expressed at " + spec[2] if len(spec) > 2 else "", "" if route == "apply" else " by route " + route, cls, shape.n_dims, st["variant"])
         twin = make_transform(spec, self.seed)  # same construction: what the transform looks like untouched
         obs_t0 = obs_transform(twin)
         obs_in = observe(shape)
@@ -662,7 +800,7 @@ class C02(Check):
 
         intact("after apply(shape)")
         if route == "apply":
-            self.note("batch:%s" % (batch or "none"))
+            self.note("batch:%s" % ({None: "none", 2: 2}.get(batch, "large")))
         self.note("variant:%s" % st["variant"])
 
         if status == "outside" or (status == "border" and raised is not None):
@@ -719,7 +857,7 @@ class C02(Check):
                     ok = np.array_equal(yp, y[pm])
                 else:
                     cond = ref[p][1] if p in ref else 1.0
-                    ok = bool(np.all(np.abs(yp - y[pm]) <= ORDER_TOL * (1.0 + np.abs(y).max()) * max(1.0, cond)))
+                    ok = bool(np.all(np.abs(yp - y[pm]) <= ORDER_TOL * mag(y, keep) * max(1.0, cond)))
                 if not ok:
                     fails.append(Failure(name, "permutation-equivariance", "%s: apply(%s rows in order %s) differs from the re-ordered apply(%s rows) by %.3g" % (ctx, p, pn, p, np.abs(yp - y[pm]).max())))
                 else:
@@ -749,7 +887,7 @@ class C02(Check):
                     if batch is None:
                         same = p in got and got[p].shape == want.shape and np.array_equal(got[p], want)
                     else:  # batches are cut at other rows: ulp-level differences (see ORDER_TOL)
-                        same = p in got and got[p].shape == want.shape and bool(np.all(np.abs(got[p] - want) <= ORDER_TOL * (1.0 + np.abs(want).max()) * max(1.0, ref[p][1] if p in ref else 1.0)))
+                        same = p in got and got[p].shape == want.shape and bool(np.all(np.abs(got[p] - want) <= ORDER_TOL * mag(want, keep) * max(1.0, ref[p][1] if p in ref else 1.0)))
                     if not same:
                         fails.append(Failure(name, "points-and-permuted-landmarks-disagree", "%s: %s held the shape's points in order %s; afterwards it is not the result's points in that order" % (ctx, p, pm.tolist())))
                     else:
@@ -783,7 +921,7 @@ class C02(Check):
         # ---- ... and those numbers are the map (independent model)
         for p, (y, cond) in ref.items():
             got = images[p]
-            tol = REF_TOL * (1.0 + np.abs(y).max()) * max(1.0, cond)
+            tol = REF_TOL * mag(y, dict(saved)[p]) * max(1.0, cond)
             if got.shape != y.shape:
                 fails.append(Failure(name, "map-shape", "%s: %s has shape %s, model %s" % (ctx, p, got.shape, y.shape)))
                 continue
@@ -792,6 +930,22 @@ class C02(Check):
                 fails.append(Failure(name, "map-value", "%s: %s is off the model by %.3g (tolerance %.3g)" % (ctx, p, err, tol)))
             else:
                 self.note("ref-error/tolerance:%s" % ("0" if err == 0 else "<=1e%d" % min(0, int(math.ceil(math.log10(err / tol))))))
+
+        # ---- the same payload at another magnitude: T_s(s x) == s T(x), T_c(x + c) == T(x) + c
+        if st.get("scale"):
+            skey = st["scale"]
+            base_t = make_transform(spec[:2], self.seed)
+            for p, _ in saved:
+                y0 = np.asarray(base_t.apply(st["base"][p].copy()), dtype=float)
+                want = y0 * SCALES[skey][1] if SCALES[skey][0] == "mul" else y0 + offset_image(skey, base_t, shape.n_dims)
+                cond = ref[p][1] if p in ref else 1.0
+                tol = REF_TOL * mag(want, dict(saved)[p]) * max(1.0, cond)
+                err = np.abs(images[p] - want).max() if images[p].shape == want.shape else np.inf
+                if not err <= tol:
+                    fails.append(Failure(name, "scale-equivariance", "%s: %s differs from the re-scaled image of the unscaled payload under the unscaled letter by %.3g (tolerance %.3g)" % (ctx, p, err, tol)))
+                else:
+                    self.note("scale-equivariance:%s" % skey)
+            self.note("scale:%s:%s" % (skey, name))
 
         # ---- no buffer of the result is observably shared with the input
         if not fails:
@@ -840,6 +994,15 @@ class C02(Check):
             for pos in ("first", "last"):
                 if not notes.get("special:%s:%s:%s" % (kind, pos, tag)):
                     out.append("no successful call on a shape whose %s point is special (%s)" % (pos, kind))
+        for sk in SCALES:
+            if not notes.get("scale-equivariance:%s" % sk):
+                out.append("scale letter %s never passed the equivariance clause" % sk)
+            for n in ("CachedPWA", "PythonPWA", "Homogeneous", "AlignmentAffine", "TransformChain", "WithDims"):
+                if (n, sk) not in SCALE_EXCLUDED and not notes.get("scale:%s:%s" % (sk, n)):
+                    out.append("transform letter %s never applied at scale %s" % (n, sk))
+        for n in ("variant:near", "variant:large", "variant:scale", "Affine-near-identity:ok", "Homogeneous-near-identity:ok", "session:valid-near-argument"):
+            if not notes.get(n):
+                out.append("outcome %s never produced" % n)
         for kind in REFUSAL_KINDS:
             if not any(k.startswith("refusal:%s:" % kind) for k in notes):
                 out.append("no call of refusal kind %s was ever refused" % kind)
@@ -868,6 +1031,9 @@ class C02(Check):
             "transform_letters_3d": len(transform_letters(3)),
             "batch_sizes": ["none", 2],
             "routes": ["apply", "apply+batch_size", "inplace", "with_dims", "manager"],
+            "scale_roots": len(self.scale_roots()),
+            "scales": list(SCALES.keys()),
+            "scale_letters_left_out": ["%s at %s: %s" % (k[0], k[1], v) for k, v in SCALE_EXCLUDED.items()],
             "order_roots": len(self.order_roots()),
             "special_roots": len(self.special_roots()),
             "permutations": list(perms(5).keys()),
@@ -887,6 +1053,7 @@ class C02(Check):
             "1-D results (WithDims with a single number) are not transformed again",
             "2-D shape letters are rescaled into the piecewise-affine source domain; out-of-domain behaviour is explored by the out / lm-out variants and at depth 2",
             "routes: private hooks (_apply, _apply_inplace, _transform, _transform_inplace) are reached through the public ones only; the inplace and manager routes are taken from the enumerated inputs (level 0) only; TexturedTriMesh.tcoords_pixel_scaled (a transform applied to texture coordinates) is not a shape transformation",
+            "scale roots: 3 shape classes, 2 landmark groups, every transform letter re-expressed at the same magnitude; not transformed again; tolerances relative to max(|input|, |output|) x conditioning",
             "special-point roots meet the one transform letter they are special for (all routes, both batch sizes) and are not transformed again; quick uses 2 shape classes for them, thorough all 8",
             "a point on a vertex / edge of the piecewise-affine source triangulation (model slack < 1e-9) may be refused or mapped; if mapped the value must be the model's",
             "sessions: sequences of at most 2 calls on one transform object (a refused call counts with its immediate retry); refusal kinds out-of-domain point / landmark, wrong dimensionality, batch_size=0, apply_inplace of a bare array; WithDims letters have no wrong-dimensionality refusal",
